@@ -373,9 +373,50 @@ RtDesign(in) ==
      ELSE [res |-> "ok", calls |-> calls, link |-> IF Bug = "RtGoFirst" THEN <<-1>> \o objs ELSE objs \o <<-1>>]
 
 --------------------------------------------------------------------------
+(* CK *)
+CkL1 == <<":", " ", "c", " ", "$", "W", "O", "R", "K", "/", "a">>
+CkL2 == <<"m", "v", " ", "a", " ", "b">>
+CkL3 == <<"$", "W", "O", "R", "K", "/", ".", ".", "/", "t", "o", "o", "l", "s", "/", "b", "u", "i", "l", "d", "i", "d", " ", "-", "w", " ", "x">>
+CkL4 == <<"$", "W", "O", "R", "K", "/", ".", ".", "/", "t", "o", "o", "l", "s", "/", "b", "u", "i", "l", "d", "i", "d", " ", "-", "x">>
+CkL5 == <<"$", "W", "O", "R", "K", "/", ".", ".", "/", "t", "o", "o", "l", "s", "/", "x", "b", "u", "i", "l", "d", "i", "d", " ", "-", "w", " ", "x">>
+CkL6 == <<":">>
+CkL7 == <<":", " ", "m", "v", " ", "a", " ", "b">>
+CkL8 == <<"b", "u", "i", "l", "d", "i", "d", " ", "-", "w", " ", "x">>
+CkN1 == <<"4", "a", "0", " ", "T", " ", "m", ".", "m">>
+CkN2 == <<"5", "b", "0", " ", "T", " ", "p", "/", "k", "m", "a", "i", "n", ".", "K", "m", "a", "i", "n">>
+CkN3 == <<" ", " ", "6", "c", "0", " ", "T", " ", "p", "/", "k", "m", "a", "i", "n", ".", "K", "m", "a", "i", "n", " ">>
+CkN4 == <<"7", "d", "0", " ", "T", " ", "p", "/", "k", "m", "a", "i", "n", ".", "K", "m", "a", "i", "n", ".", "f">>
+CkN5 == <<"k", "m", "a", "i", "n", ".", "K", "m", "a", "i", "n">>
+CkLinePool == {CkL1, CkL2, CkL3, CkL4, CkL5, CkL6, CkL7, CkL8}
+CkNmPool == {CkN1, CkN2, CkN3, CkN4, CkN5}
+CkFam == { [lines |-> l, nm |-> <<CkN1, CkN2>>, buildrc |-> 0, nmrc |-> 0, objrc |-> 0] : l \in SeqsUpTo(CkLinePool, IF Scope = 1 THEN 2 ELSE 3) }
+         \cup { [lines |-> <<CkL1>>, nm |-> n, buildrc |-> 0, nmrc |-> 0, objrc |-> 0] : n \in SeqsUpTo(CkNmPool, IF Scope = 1 THEN 2 ELSE 3) }
+         \cup { [lines |-> <<CkL1, CkL2>>, nm |-> <<CkN2>>, buildrc |-> x[1], nmrc |-> x[2], objrc |-> x[3]] : x \in {<<1, 0, 0>>, <<0, 2, 0>>, <<0, 0, 3>>, <<1, 1, 1>>} }
+CkDesign(in) ==
+  LET sub(l) == IF Bug = "CkNoWorkSubst" THEN l ELSE T!ReplaceAll(l, P!CkWorkVar, P!CkWorkDir)
+      first(l) == LET i == T!IndexOf(l, " ") IN IF i = 0 THEN <<>> ELSE T!Upto(l, i - 1)
+      isMv(l) == Bug # "CkKeepsMv" /\ T!HasPrefix(l, P!CkMv)
+      isBuildid(l) == LET i == T!IndexOf(l, " ") IN
+                      i > 0 /\ P!CkBase(first(l)) = P!CkBuildid /\ (Bug = "CkDropsEveryBuildid" \/ T!HasPrefix(T!From(l, i), P!CkDashW))
+      kept == SelectSeq([i \in 1..Len(in.lines) |-> sub(in.lines[i])], LAMBDA l : ~isMv(l) /\ ~isBuildid(l))
+      text == P!CkProlog \o T!Str(Cat([i \in 1..Len(kept) |-> <<T!Str(kept[i]) \o "\n">>], 1))
+      match(l) == IF Bug = "CkContainsKmain" THEN T!IndexOfSub(l, P!CkKmain) > 0 ELSE T!HasSuffix(l, P!CkKmain)
+      H == {i \in 1..Len(in.nm) : match(T!TrimSpace(in.nm[i]))}
+      ln == T!TrimSpace(in.nm[IF Bug = "CkLastKmain" THEN T!MaxOf(H) ELSE T!MinOf(H)])
+      sp == T!IndexOf(ln, " ")
+      call == <<"--add-symbol", "kernel.Kmain=.text:0x" \o T!Str(T!Upto(ln, sp - 1)), "--globalize-symbol", "runtime.g0", "--globalize-symbol", "runtime.m0",
+                "--globalize-symbol", "runtime.physPageSize", "$DIR/work/go.o", "$DIR/work/go.o">>
+      base == [res |-> "exit", written |-> TRUE, script |-> text, goenv |-> "GOARCH=amd64 CGO_ENABLED=0 GOPATH=/kernel", goargs |-> P!CkGo, objcopy |-> <<>>]
+  IN IF in.buildrc # 0 THEN [base EXCEPT !.written = FALSE, !.script = ""]
+     ELSE IF in.nmrc # 0 \/ H = {} THEN base
+     ELSE IF sp = 0 THEN base
+     ELSE IF in.objrc # 0 /\ Bug # "CkIgnoresObjcopyFailure" THEN [base EXCEPT !.objcopy = <<call>>]
+     ELSE [base EXCEPT !.res = "ok", !.objcopy = <<call>>]
+
+--------------------------------------------------------------------------
 Fam(c) == CASE c = "cr" -> CrFam [] c = "ls" -> LsFam [] c = "wo" -> WoFam [] c = "ve" -> VeFam
             [] c = "cd" -> {[tools |-> t] : t \in CdFam} [] c = "mm" -> MmFam [] c = "gv" -> GvFam
-            [] c = "oe" -> OeFam [] c = "bw" -> BwFam [] c = "do" -> DoFam [] c = "rt" -> RtFam
+            [] c = "oe" -> OeFam [] c = "bw" -> BwFam [] c = "do" -> DoFam [] c = "rt" -> RtFam [] c = "ck" -> CkFam
 
 \* the results the design may produce for the input (more than one only where the design leaves an order open)
 Outs(c, in) ==
@@ -383,7 +424,7 @@ Outs(c, in) ==
     [] c = "ls" -> {LsDesign(in, ord) : ord \in LsOrders(LsMap(in.consts, 1, <<>>))}
     [] c = "wo" -> {WoDesign(in)} [] c = "ve" -> {VeDesign(in)} [] c = "cd" -> {CdDesign(in)}
     [] c = "mm" -> {MmDesign(in)} [] c = "gv" -> {GvDesign(in)} [] c = "oe" -> {OeDesign(in)}
-    [] c = "bw" -> {BwDesign(in)} [] c = "do" -> {DoDesign(in)} [] c = "rt" -> {RtDesign(in)}
+    [] c = "bw" -> {BwDesign(in)} [] c = "do" -> {DoDesign(in)} [] c = "rt" -> {RtDesign(in)} [] c = "ck" -> {CkDesign(in)}
 
 Init == /\ comp \in Comps
         /\ inp \in Fam(comp)
